@@ -131,6 +131,7 @@ def gen_pyseq(rng):
     """(model ops, runner lines): Python references are counted by the harness; the model sees a Release when the LAST reference
     to an object is dropped (copying a Python reference is safe, unlike copying a C capsule struct)"""
     mops = ["L"] * 5
+    pops = ["PL"] * 5      # the same history as Python-level operations for PyHandles.compile
     lines = []
     refs = []          # per Python slot: root handle index or None
     nref = {}          # root -> number of live references
@@ -141,6 +142,7 @@ def gen_pyseq(rng):
         if r < 0.3 or not refs:
             k = rng.choice([1, 1, 2, 5])
             mops.append("N:%d" % k)
+            pops.append("PN:%d" % k)
             lines.append("new %d %d" % (k, rng.randint(0, 9)))
             refs.append(nh)
             nref[nh] = 1
@@ -148,6 +150,7 @@ def gen_pyseq(rng):
         elif r < 0.4:
             a = rng.randint(0, 3)
             mops.append("B:%d" % a)
+            pops.append("PB:%d" % a)
             lines.append("borrow %d" % a)
             refs.append(nh)
             nref[nh] = 1
@@ -155,9 +158,11 @@ def gen_pyseq(rng):
         elif r < 0.55 and livei:
             i = rng.choice(livei)
             mops.append("M:%d" % refs[i])
+            pops.append("PM:%d" % i)
             lines.append("method %d" % i)
         elif r < 0.65 and livei:
             i = rng.choice(livei)
+            pops.append("PA:%d" % i)
             lines.append("alias %d" % i)
             refs.append(refs[i])
             nref[refs[i]] += 1
@@ -167,13 +172,14 @@ def gen_pyseq(rng):
             refs[i] = None
             nref[root] -= 1
             lines.append("drop %d" % i)
+            pops.append("PD:%d" % i)
             if nref[root] == 0:
                 mops.append("R:%d" % root)
         elif r < 0.93:
             lines.append("call %d %d" % (rng.randint(0, 6), rng.randint(0, 9)))
         else:
             lines.append("bad %d %d" % (rng.randint(0, 7), rng.randint(0, 9)))
-    return mops, lines
+    return mops, lines, pops
 
 
 def run_py(d, lines):
@@ -197,7 +203,13 @@ def python_runs(ctx, drv):
         return
     quick = ctx.tier == "quick"
     rng = ctx.rng
-    seqs = [gen_pyseq(rng) for _ in range(160 if quick else 2500)]
+    seqs3 = [gen_pyseq(rng) for _ in range(160 if quick else 2500)]
+    # the capsule operations of each history are those of the verified compilation (theorem C06_python_reference_counting_is_admissible)
+    cres = drv.pbatch(["pycompile|" + ",".join(p) for _, _, p in seqs3])
+    for (m, l, p), c in zip(seqs3, cres):
+        if c != ",".join(m):
+            ctx.broken.append(("correspondence", "PyHandles.compile", "python ops %s: harness %s, model %s" % (p, m, c)))
+    seqs = [(m, l) for m, l, _ in seqs3]
     mres = drv.pbatch(["capsule|" + ",".join(m) for m, _ in seqs])
     from concurrent.futures import ThreadPoolExecutor
     with ThreadPoolExecutor(vlib.NCPU) as ex:
